@@ -3,12 +3,16 @@
    interpreted with a script of draws = what the harness compares with the real sampler,
    and as a finite distribution = each draw u in [0,1) splits the unit interval).
 
-   NOT formalised (partial): "as the number of samples grows the frequencies converge"
-   (law of large numbers).  What is proved is the distribution of ONE sample; the i.i.d.
-   repetition is the `while` loop of sample()/estimate() and the convergence is only
-   tested statistically by the harness (labelled as a test). *)
+   "As the number of samples grows the frequencies converge": proved as a WEAK law of large
+   numbers for the model (last part of this file, ModelLLN.v / ProofsLLN.v): n independent
+   samples = n-fold product of the one-sample distribution, Chebyshev bound 1/(4 n eps^2) on
+   the probability that the estimate deviates by >= eps, explicit N for every delta.
+   NOT formalised: almost-sure convergence (strong law; needs a measure on infinite sample
+   sequences) and the exponential (Hoeffding) bound that the harness's frequency test uses.
+   That the real sampler's attempts are independent (fresh SampledFormula, fresh draws of the
+   PRNG) is the modelling assumption of the product. *)
 From Coq Require Import QArith Qminmax NArith List Bool Permutation.
-From PL.C22 Require Import ModelSampler ProofsSampler ProofsWellFormed.
+From PL.C22 Require Import ModelSampler ProofsSampler ProofsWellFormed ModelLLN ProofsLLN.
 Import ListNotations.
 Open Scope Q_scope.
 
@@ -182,4 +186,178 @@ Example C22_ex_run :
   check_run [mkCall 1 (Some 9%N) (Some (1#4)); mkCall 5 None (Some (1#2)); mkCall 2 (Some 9%N) (Some (1#4));
              mkCall 1 (Some 9%N) (Some (1#4)); mkCall 3 (Some 9%N) (Some (1#2))]
             [1#2; 1#2; 1#3] [false; false; true; false; false] (1#8) (1#8) [(9%N, None)] = true.
+Proof. vm_compute. reflexivity. Qed.
+
+(* ================================================================================================
+   Weak law of large numbers for the estimate (ModelLLN.v, ProofsLLN.v).
+   Finite distribution = list (A * Q) as above (e.g. the leaves `sdist s init 1`); `prodn d n` = all
+   sequences of n outcomes, weight = product of the weights (n independent samples);
+   `freq f l` = (number of samples of l in f) / (length l) = what estimate() returns for a query;
+   `freq_dev f p eps l` = (eps <= |freq f l - p|).  Everything over Q, no axioms, no limits. *)
+
+(* prodn is the independent product: it is a distribution over sequences of length n, and the
+   probability of a coordinate-wise event (sample i in f_i) is the product of the P(f_i) *)
+Theorem C22_product_distribution : forall A (d : list (A * Q)) n,
+  (forall a w, In (a, w) d -> 0 <= w) -> mass d (fun _ => true) == 1 ->
+  (forall l w, In (l, w) (prodn d n) -> length l = n /\ 0 <= w) /\ mass (prodn d n) (fun _ => true) == 1.
+Proof. exact product_distribution. Qed.
+Print Assumptions C22_product_distribution.
+
+Theorem C22_product_independent : forall A (d : list (A * Q)) (fs : list (A -> bool)),
+  mass (prodn d (length fs)) (allb fs) == Qprod (map (mass d) fs).
+Proof. exact (@prodn_independent). Qed.
+Print Assumptions C22_product_independent.
+
+(* expectation and variance of the frequency of an event among n independent samples *)
+Theorem C22_frequency_moments : forall A (d : list (A * Q)) (f : A -> bool) n,
+  (forall a w, In (a, w) d -> 0 <= w) -> mass d (fun _ => true) == 1 -> (0 < n)%nat ->
+  expect (prodn d n) (freq f) == mass d f /\
+  expect (prodn d n) (fun l => (freq f l - mass d f) * (freq f l - mass d f)) == mass d f * (1 - mass d f) / Qnat n.
+Proof. exact frequency_moments. Qed.
+Print Assumptions C22_frequency_moments.
+
+(* the same for the sample mean of any Q-valued observable with mean mu and variance v *)
+Theorem C22_mean_moments : forall A (d : list (A * Q)) (g : A -> Q) mu v n,
+  mass d (fun _ => true) == 1 -> expect d g == mu -> expect d (fun a => (g a - mu) * (g a - mu)) == v -> (0 < n)%nat ->
+  expect (prodn d n) (smean g) == mu /\
+  expect (prodn d n) (fun l => (smean g l - mu) * (smean g l - mu)) == v / Qnat n.
+Proof. exact mean_moments. Qed.
+Print Assumptions C22_mean_moments.
+
+(* Chebyshev: the set of n-sample sequences whose frequency deviates from P(f) by at least eps has
+   product probability <= P(f)(1-P(f)) / (n eps^2) <= 1 / (4 n eps^2) *)
+Theorem C22_chebyshev : forall A (d : list (A * Q)) (f : A -> bool) n eps,
+  (forall a w, In (a, w) d -> 0 <= w) -> mass d (fun _ => true) == 1 -> (0 < n)%nat -> 0 < eps ->
+  mass (prodn d n) (freq_dev f (mass d f) eps) <= mass d f * (1 - mass d f) / (Qnat n * eps * eps) /\
+  mass d f * (1 - mass d f) / (Qnat n * eps * eps) <= 1 / (4 * Qnat n * eps * eps).
+Proof. exact chebyshev. Qed.
+Print Assumptions C22_chebyshev.
+
+Theorem C22_chebyshev_mean : forall A (d : list (A * Q)) (g : A -> Q) mu v n eps,
+  (forall a w, In (a, w) d -> 0 <= w) -> mass d (fun _ => true) == 1 ->
+  expect d g == mu -> expect d (fun a => (g a - mu) * (g a - mu)) == v -> (0 < n)%nat -> 0 < eps ->
+  mass (prodn d n) (mean_dev g mu eps) <= v / (Qnat n * eps * eps).
+Proof. exact mean_chebyshev. Qed.
+Print Assumptions C22_chebyshev_mean.
+
+(* Weak law of large numbers: the deviation probability tends to 0 — for every eps, delta > 0 there is
+   an N (explicitly lln_N eps delta = floor(1 / (4 eps^2 delta)) + 1) from which on it is below delta *)
+Theorem C22_weak_lln : forall A (d : list (A * Q)) (f : A -> bool) eps delta,
+  (forall a w, In (a, w) d -> 0 <= w) -> mass d (fun _ => true) == 1 -> 0 < eps -> 0 < delta ->
+  exists N, forall n, (N <= n)%nat -> mass (prodn d n) (freq_dev f (mass d f) eps) < delta.
+Proof. exact weak_lln. Qed.
+Print Assumptions C22_weak_lln.
+
+Theorem C22_weak_lln_explicit_N : forall A (d : list (A * Q)) (f : A -> bool) eps delta,
+  (forall a w, In (a, w) d -> 0 <= w) -> mass d (fun _ => true) == 1 -> 0 < eps -> 0 < delta ->
+  forall n, (lln_N eps delta <= n)%nat -> mass (prodn d n) (freq_dev f (mass d f) eps) < delta.
+Proof. exact weak_lln_explicit. Qed.
+Print Assumptions C22_weak_lln_explicit_N.
+
+(* The distribution of an accepted sample: `cond d e` (keep the outcomes with evidence, divide by P(e)).
+   It is a distribution on the outcomes satisfying e, P_cond(q) = P(e /\ q) / P(e), and it IS what the
+   rejection loop produces, for every bound m+1 on the number of attempts (C22_rejection_conditional) *)
+Theorem C22_accepted_sample_distribution : forall A (d : list (A * Q)) (e : A -> bool),
+  (forall a w, In (a, w) d -> 0 <= w) -> 0 < mass d e ->
+  (forall a w, In (a, w) (cond d e) -> 0 <= w /\ e a = true) /\
+  mass (cond d e) (fun _ => true) == 1 /\
+  (forall q, mass (cond d e) q == mass d (fun a => e a && q a) / mass d e) /\
+  (forall q m, first_acc d e q (S m) / first_acc d e (fun _ => true) (S m) == mass (cond d e) q).
+Proof. exact accepted_distribution. Qed.
+Print Assumptions C22_accepted_sample_distribution.
+
+(* n samples, each obtained by the rejection loop with at most m+1 attempts (`accm d e (S m)` = the
+   sub-distribution of the first accepted sample within m+1 attempts, C22_accm_is_first_accepted):
+   all n are accepted with probability (1 - P(not e)^(m+1))^n > 0, and conditional on that the n-sample
+   sequence is distributed exactly as the n-fold product of `cond d e`, for every m *)
+Theorem C22_accm_is_first_accepted : forall A (d : list (A * Q)) e q m, mass (accm d e m) q == first_acc d e q m.
+Proof. exact (@accm_mass). Qed.
+Print Assumptions C22_accm_is_first_accepted.
+
+Theorem C22_bounded_attempts_product : forall A (d : list (A * Q)) e m n (F : list A -> bool),
+  (forall a w, In (a, w) d -> 0 <= w) -> 0 < mass d e ->
+  mass (prodn (accm d e (S m)) n) (fun _ => true) == Qpown (first_acc d e (fun _ => true) (S m)) n /\
+  0 < mass (prodn (accm d e (S m)) n) (fun _ => true) /\
+  mass (prodn (accm d e (S m)) n) F / mass (prodn (accm d e (S m)) n) (fun _ => true)
+  == mass (prodn (cond d e) n) F.
+Proof. exact bounded_attempts_product. Qed.
+Print Assumptions C22_bounded_attempts_product.
+
+(* The estimate converges (in probability): for EVERY adaptive encounter strategy s of the modelled
+   sampler, evidence e with P(e) > 0 and query q, the frequency of q among n accepted samples deviates
+   from the conditional probability P(q | e) = P(e /\ q) / P(e) by eps or more with probability at most
+   1 / (4 n eps^2); hence below any delta > 0 from n = lln_N eps delta on. *)
+Theorem C22_estimate_converges : forall s (e q : state -> bool) n eps,
+  0 < mass (sdist s init 1) e -> (0 < n)%nat -> 0 < eps ->
+  mass (prodn (cond (sdist s init 1) e) n)
+       (freq_dev q (mass (sdist s init 1) (fun a => e a && q a) / mass (sdist s init 1) e) eps)
+  <= 1 / (4 * Qnat n * eps * eps).
+Proof. exact estimate_converges. Qed.
+Print Assumptions C22_estimate_converges.
+
+Theorem C22_estimate_converges_delta : forall s (e q : state -> bool) eps delta,
+  0 < mass (sdist s init 1) e -> 0 < eps -> 0 < delta ->
+  forall n, (lln_N eps delta <= n)%nat ->
+  mass (prodn (cond (sdist s init 1) e) n)
+       (freq_dev q (mass (sdist s init 1) (fun a => e a && q a) / mass (sdist s init 1) e) eps) < delta.
+Proof. exact estimate_converges_delta. Qed.
+Print Assumptions C22_estimate_converges_delta.
+
+(* sample() without evidence: frequency of q among n samples vs. P(q) *)
+Theorem C22_sample_frequency_converges : forall s (q : state -> bool) n eps, (0 < n)%nat -> 0 < eps ->
+  mass (prodn (sdist s init 1) n) (freq_dev q (mass (sdist s init 1) q) eps) <= 1 / (4 * Qnat n * eps * eps).
+Proof. exact sample_frequency_converges. Qed.
+Print Assumptions C22_sample_frequency_converges.
+
+(* The bound a statistical test may use: with n samples and tolerance eps the test "|frequency - p| < eps"
+   raises a false alarm with probability at most delta whenever 1 <= 4 n eps^2 delta, i.e. eps >= 1/(2 sqrt(n delta)).
+   (The harness uses the sharper Hoeffding bound 2 exp(-2 n eps^2), which is NOT formalised here; Chebyshev
+   at delta = 1e-9 would need n >= 2.5e8 / eps^2 samples.) *)
+Theorem C22_test_bound : forall A (d : list (A * Q)) (f : A -> bool) n eps delta,
+  (forall a w, In (a, w) d -> 0 <= w) -> mass d (fun _ => true) == 1 -> (0 < n)%nat -> 0 < eps ->
+  1 <= 4 * Qnat n * eps * eps * delta ->
+  mass (prodn d n) (freq_dev f (mass d f) eps) <= delta.
+Proof. exact test_bound. Qed.
+Print Assumptions C22_test_bound.
+
+(* ---- non-vacuity ------------------------------------------------------------------------------ *)
+(* a three-outcome distribution, event {0} with P = 1/2, n = 3, eps = 1/2: the 27 sequences have total
+   mass 1; E freq = 1/2, Var freq = 1/12; P(|freq - 1/2| >= 1/2) = 1/4 <= 1/3 = p(1-p)/(n eps^2) = 1/(4 n eps^2) *)
+Definition ex_d3 : list (N * Q) := [(0%N, 1#2); (1%N, 1#3); (2%N, 1#6)].
+Example C22_ex_lln_small :
+  let f := N.eqb 0 in
+  (length (prodn ex_d3 3),
+   Qred (mass (prodn ex_d3 3) (fun _ => true)),
+   Qred (expect (prodn ex_d3 3) (freq f)),
+   Qred (expect (prodn ex_d3 3) (fun l => (freq f l - (1#2)) * (freq f l - (1#2)))),
+   Qred (mass (prodn ex_d3 3) (freq_dev f (1#2) (1#2))),
+   Qred ((1#2) * (1 - (1#2)) / (Qnat 3 * (1#2) * (1#2))),
+   Qred (mass (prodn ex_d3 2) (freq_dev f (1#2) (1#4))),
+   Qred (mass (prodn ex_d3 1) (freq_dev f (1#2) (1#4))))
+  = (27%nat, 1, 1#2, 1#12, 1#4, 1#3, 1#2, 1).
+Proof. vm_compute. reflexivity. Qed.
+
+(* the modelled sampler: fact 5 (1/2), AD {1: 1/4, 2: 3/4}; evidence "5 or head 1", query "head 1":
+   P(e) = 5/8, P(q | e) = 2/5; two and three accepted samples *)
+Definition ex_lln_s : strat :=
+  of_list [mkCall 5 None (Some (1#2)); mkCall 1 (Some 9%N) (Some (1#4)); mkCall 2 (Some 9%N) (Some (3#4))].
+Definition ex_lln_e (st : state) : bool := chosenb 5 st || chosenb 1 st.
+Definition ex_lln_q (st : state) : bool := chosenb 1 st.
+Example C22_ex_estimate :
+  let d := sdist ex_lln_s init 1 in
+  (Qred (mass d ex_lln_e),
+   Qred (mass d (fun a => ex_lln_e a && ex_lln_q a) / mass d ex_lln_e),
+   Qred (mass (cond d ex_lln_e) ex_lln_q),
+   Qred (mass (prodn (cond d ex_lln_e) 2) (fun _ => true)),
+   Qred (mass (prodn (cond d ex_lln_e) 2) (freq_dev ex_lln_q (2#5) (1#2))),
+   Qred (1 / (4 * Qnat 2 * (1#2) * (1#2))),
+   Qred (mass (prodn (cond d ex_lln_e) 3) (freq_dev ex_lln_q (2#5) (1#2))),
+   Qred (1 / (4 * Qnat 3 * (1#2) * (1#2))),
+   Qred (mass (prodn (accm d ex_lln_e 2) 2) (freq_dev ex_lln_q (2#5) (1#2))
+         / mass (prodn (accm d ex_lln_e 2) 2) (fun _ => true)))
+  = (5#8, 2#5, 2#5, 1, 4#25, 1#2, 8#125, 1#3, 4#25).
+Proof. vm_compute. reflexivity. Qed.
+
+(* the explicit N: eps = 1/10, delta = 1/20 -> 1/(4 eps^2 delta) = 500, N = 501 *)
+Example C22_ex_lln_N : lln_N (1#10) (1#20) = 501%nat.
 Proof. vm_compute. reflexivity. Qed.
